@@ -45,6 +45,10 @@ SENSITIVITY = {
     "r3b": ("seeded/r3b/patch.diff", "C17", ["result-mismatch"], "A via the numeric-type seam (Yf) + B (Miri)"),
     "r3c": ("seeded/r3c/patch.diff", "C18", ["query-element-not-delivered"], "A: delivery of every query element"),
     "r3d": ("seeded/r3d/patch.diff", "C18", ["query-element-not-delivered"], "A: delivery of every query element"),
+    "r4a": ("seeded/r4a/patch.diff", "C17", ["result-mismatch"], "A: badbuf then plain query, Bilinear"),
+    "r4b": ("seeded/r4b/patch.diff", "C17", ["result-mismatch"], "A: interpolators built on other threads"),
+    "r4c": ("seeded/r4c/patch.diff", "C18", ["callback-invariant"], "A: target shape"),
+    "r4d": ("seeded/r4d/patch.diff", "C18", ["build-error-changed"], "A: builder decision table"),
 }
 
 BENIGN = {
